@@ -51,6 +51,9 @@ theorem unopTyWith_iff (op : UnOp) (a t' : Ty) (h : ∃ u, UnopTy op a u) :
     unopTyWith op (fun _ => .ok a) = .ok t' ↔ UnopTy op a t' := by
   cases op <;> cases a <;> cases t' <;> simp_all [unopTyWith, UnopTy, Numeric]
 
+theorem requireExact_ok_iff' (t u : Ty) : requireExact t u = .ok () ↔ t = u := by
+  unfold requireExact; split <;> simp_all
+
 theorem checkValue_ok (Γ : Ctx) (a : TExpr) (t : Ty) :
     (check Γ a >>= requireValue) = .ok t ↔ check Γ a = .ok (.value t) := by
   rw [bind_eq_ok]
@@ -80,41 +83,242 @@ theorem paramCheck_ok_iff (p : Param) (t : Ty) : paramCheck p t = .ok () ↔ Par
   | untyped => simp
   | typed u => by_cases h : t = u <;> simp [h, eq_comm]
 
+/-! ### `compute_ty` on accepted expressions -/
+
+theorem mem_subsE_self : (e : TExpr) → e ∈ subsE e
+  | .litI _ | .litF _ | .litS _ | .reg _ _ | .var _ _ | .unop _ _ | .binop _ _ _ | .ternary _ _ _
+  | .call _ _ | .diffSwitch _ _ | .xcrement _ _ _ | .enumConst _ _ | .labelProp _ | .callx _ _ _ _ => by
+    simp [subsE]
+
+/-- `compute_ty` and `check_expr` can only disagree at a qualified constant of a string enum:
+either `compute_ty` asks `enum_ty` (switch off), or no such constant occurs in `e` -/
+def EnumOk (Γ : Ctx) (e : TExpr) : Prop := computeTyEnumIsInt = false ∨ NoStrEnumConst Γ e
+
+theorem EnumOk.sub {Γ : Ctx} {e x : TExpr} (h : EnumOk Γ e) (hs : ∀ y, y ∈ subsE x → y ∈ subsE e) :
+    EnumOk Γ x :=
+  h.imp id (fun hn en n hm => hn en n (hs _ hm))
+
+theorem unopTyWith_computeTy (Γ : Ctx) (op : UnOp) (x : TExpr) (tx : Ty)
+    (hu : unopCheck op tx = .ok ()) (hc : tx ≠ .str → computeTy Γ x = .ok (.value tx)) :
+    unopTyWith op (fun _ => expectValue (computeTy Γ x)) = unopTyWith op (fun _ => .ok tx) := by
+  cases op <;> simp only [unopTyWith]
+  cases tx <;> simp [unopCheck, requireNumeric] at hu <;> simp [hc, expectValue]
+
+theorem binopTyWith_computeTy (Γ : Ctx) (op : BinOp) (a : TExpr) (ta tb : Ty)
+    (hu : binopCheck op ta tb = .ok ()) (hc : ta ≠ .str → computeTy Γ a = .ok (.value ta)) :
+    binopTyWith op (fun _ => expectValue (computeTy Γ a)) = binopTyWith op (fun _ => .ok ta) := by
+  cases op <;> simp only [binopTyWith, BinOp.cls] <;>
+    cases ta <;> simp [binopCheck, BinOp.cls, requireNumeric] at hu <;> simp [hc, expectValue]
+
+/-- `compute_ty` agrees with `check_expr` on every accepted expression whose type is not `string`,
+and on every accepted expression in which no qualified constant of a string enum occurs (no
+hypothesis on the signatures is needed). -/
+theorem computeTy_of_check_gen (Γ : Ctx) : (e : TExpr) → (t : ETy) → check Γ e = .ok t →
+    (EnumOk Γ e ∨ t ≠ .value .str) → computeTy Γ e = .ok t
+  | .litI v, t, h, _ => by simp only [check] at h; cases h; rfl
+  | .litF v, t, h, _ => by simp only [check] at h; cases h; rfl
+  | .litS v, t, h, _ => by simp only [check] at h; cases h; rfl
+  | .reg r sig, t, h, _ => by
+    simp only [check] at h
+    split at h <;> cases h
+    rename_i u hu _
+    simp [computeTy, checkVar_readTy hu]
+  | .var n sig, t, h, _ => by
+    simp only [check] at h
+    split at h <;> cases h
+    rename_i u hu _
+    simp [computeTy, checkVar_readTy hu]
+  | .unop op x, t, h, _ => by
+    -- the checker's answer IS `unop_ty(op, &x.value, ctx)`, the expression `compute_ty` evaluates
+    simp only [check] at h
+    split at h
+    · split at h
+      · simp only [computeTy]; exact h
+      · cases h
+      · cases h
+    · cases h
+    · cases h
+  | .binop op a b, t, h, _ => by
+    simp only [check] at h
+    split at h
+    · split at h
+      · split at h
+        · simp only [computeTy]; exact h
+        · cases h
+        · cases h
+      · cases h
+      · cases h
+    · cases h
+    · cases h
+  | .ternary c l r, t, h, hE => by
+    simp only [check] at h
+    split at h
+    · rename_i tl hl
+      rw [checkValue_ok] at hl
+      split at h
+      · split at h
+        · split at h
+          · split at h
+            · rename_i u hs
+              cases h
+              simp only [requireSame] at hs
+              split at hs <;> cases hs
+              have := computeTy_of_check_gen Γ l _ hl
+                (hE.imp (fun h => h.sub (by intro y hy; simp [subsE, hy])) id)
+              simpa [computeTy] using this
+            · cases h
+            · cases h
+          · cases h
+          · cases h
+        · cases h
+        · cases h
+      · cases h
+      · cases h
+    · cases h
+    · cases h
+  | .call f args, t, h, _ => by
+    simp only [check] at h
+    split at h
+    · cases h
+    · rename_i ps hps
+      split at h
+      · split at h <;> cases h
+        simp [computeTy, hps]
+      · cases h
+  | .diffSwitch first rest, t, h, hE => by
+    simp only [check] at h
+    split at h
+    · rename_i tf hf
+      rw [checkValue_ok] at hf
+      split at h
+      · cases h
+        have := computeTy_of_check_gen Γ first _ hf
+          (hE.imp (fun h => h.sub (by intro y hy; simp [subsE, hy])) id)
+        simpa [computeTy] using this
+      · cases h
+      · cases h
+    · cases h
+    · cases h
+  | .xcrement pre inc v, t, h, _ => by
+    simp only [check] at h
+    split at h
+    · split at h
+      · rename_i tv hv
+        split at h
+        · rename_i hi
+          cases h
+          rw [requireExact_ok_iff'] at hi
+          subst hi; rfl
+        · cases h
+        · cases h
+      · cases h
+      · cases h
+    · cases h
+    · cases h
+  | .enumConst en n, t, h, hE => by
+    simp only [check] at h; cases h
+    simp only [computeTy]
+    rcases hE with hE | hE
+    · rcases hE with hE | hE
+      · simp [hE]
+      · have := hE en n (mem_subsE_self _)
+        simp [Ctx.enumTy, this]
+    · cases hs : Γ.enumStr en <;> simp_all [Ctx.enumTy]
+  | .labelProp l, t, h, _ => by simp only [check] at h; cases h; rfl
+  | .callx user f pseudos args, t, h, _ => by
+    simp only [check] at h
+    split at h
+    · split at h
+      · cases h
+      · split at h
+        · rename_i hb
+          split at h <;> cases h
+          simp [computeTy, hb]
+        · rename_i hb
+          split at h
+          · cases h
+          · rename_i ps rt hsig
+            split at h
+            · split at h <;> cases h
+              simp [computeTy, hb, hsig]
+            · cases h
+    · cases h
+    · cases h
+
+theorem length_of_argsTyped (Γ : Ctx) : (as : TArgs) → (ps : List Param) → ArgsTyped Γ as ps →
+    as.length = ps.length
+  | .nil, _, h => by cases h; rfl
+  | .cons a as, _, h => by
+    cases h with
+    | cons _ _ hr => simp [TArgs.length, length_of_argsTyped Γ as _ hr]
+
+theorem minArgs_eq_required (ps : List Param) : minArgs ps = (required ps).length := by
+  induction ps with
+  | nil => rfl
+  | cons p ps ih => by_cases hp : p.optional <;> simp [minArgs, required, hp, ih]; omega
+
+theorem pseudoCheck_ok_iff (k : PseudoKind) (t : Ty) : pseudoCheck k t = .ok () ↔ PseudoTy k = t := by
+  cases k <;> cases t <;> simp [pseudoCheck, PseudoTy]
+
+/-- user-defined functions have no optional parameters -/
+theorem fparams_trailing (Γ : Ctx) (f : Nat) : trailingOptional (Γ.fparams f) = true := by
+  unfold Ctx.fparams
+  induction (Γ.fsig f).1 with
+  | nil => rfl
+  | cons p ps ih => simpa [trailingOptional] using ih
+
+theorem fparams_required (Γ : Ctx) (f : Nat) : required (Γ.fparams f) = Γ.fparams f := by
+  unfold Ctx.fparams
+  induction (Γ.fsig f).1 with
+  | nil => rfl
+  | cons p ps ih => simpa [required] using ih
+
+/-- the signatures `calleeSig` returns are as well-formed as the instruction signatures -/
+theorem calleeSig_trailing (Γ : Ctx) (hΓ : SigsOk Γ) (user : Bool) (f : Nat) (ps : List Param)
+    (rt : ETy) (h : Γ.calleeSig user f = some (ps, rt)) : trailingOptional ps = true := by
+  unfold Ctx.calleeSig at h
+  cases user with
+  | true => simp at h; rw [← h.1]; exact fparams_trailing Γ f
+  | false =>
+    simp only [Bool.false_eq_true, if_false] at h
+    cases hs : Γ.sig f with
+    | none => simp [hs] at h
+    | some qs => simp [hs] at h; rw [← h.1]; exact hΓ f qs hs
+
 mutual
 theorem check_sound_aux (Γ : Ctx) (hΓ : SigsOk Γ) : (e : TExpr) → (t : ETy) → check Γ e = .ok t →
-    HasType Γ e t ∧ computeTy Γ e = .ok t
+    HasType Γ e t
   | .litI v, t, h => by
-    simp only [check] at h; cases h; exact ⟨.litI v, rfl⟩
+    simp only [check] at h; cases h; exact .litI v
   | .litF v, t, h => by
-    simp only [check] at h; cases h; exact ⟨.litF v, rfl⟩
+    simp only [check] at h; cases h; exact .litF v
   | .litS v, t, h => by
-    simp only [check] at h; cases h; exact ⟨.litS v, rfl⟩
+    simp only [check] at h; cases h; exact .litS v
   | .reg r sig, t, h => by
     simp only [check] at h
     split at h <;> cases h
     rename_i u hu
-    exact ⟨.reg ((checkVar_ok_iff _ _ _).mp hu), by simp [computeTy, checkVar_readTy hu]⟩
+    exact .reg ((checkVar_ok_iff _ _ _).mp hu)
   | .var n sig, t, h => by
     simp only [check] at h
     split at h <;> cases h
     rename_i u hu
-    exact ⟨.var ((checkVar_ok_iff _ _ _).mp hu), by simp [computeTy, checkVar_readTy hu]⟩
+    exact .var ((checkVar_ok_iff _ _ _).mp hu)
   | .unop op x, t, h => by
     simp only [check] at h
     split at h
     · rename_i tx hx
       rw [checkValue_ok] at hx
-      have ⟨htx, hcx⟩ := check_sound_aux Γ hΓ x _ hx
+      have htx := check_sound_aux Γ hΓ x _ hx
       split at h
       · rename_i hu
+        rw [unopTyWith_computeTy Γ op x tx hu
+          (fun hne => computeTy_of_check_gen Γ x _ hx (Or.inr (by simpa using hne)))] at h
         rw [unopCheck_ok_iff] at hu
-        simp only [hcx, expectValue] at h
         split at h <;> cases h
         rename_i t' ht'
         rw [unopTyWith_iff _ _ _ hu] at ht'
-        refine ⟨.unop ht' htx, ?_⟩
-        simp only [computeTy, hcx, expectValue]
-        rw [(unopTyWith_iff _ _ _ hu).mpr ht']
+        exact .unop ht' htx
       · cases h
       · cases h
     · cases h
@@ -124,23 +328,22 @@ theorem check_sound_aux (Γ : Ctx) (hΓ : SigsOk Γ) : (e : TExpr) → (t : ETy)
     split at h
     · rename_i ta ha
       rw [checkValue_ok] at ha
-      have ⟨hta, hca⟩ := check_sound_aux Γ hΓ a _ ha
+      have hta := check_sound_aux Γ hΓ a _ ha
       split at h
       · rename_i tb hb
         rw [checkValue_ok] at hb
-        have ⟨htb, _⟩ := check_sound_aux Γ hΓ b _ hb
+        have htb := check_sound_aux Γ hΓ b _ hb
         split at h
         · rename_i hu
+          rw [binopTyWith_computeTy Γ op a ta tb hu
+            (fun hne => computeTy_of_check_gen Γ a _ ha (Or.inr (by simpa using hne)))] at h
           rw [binopCheck_ok_iff] at hu
           obtain ⟨hab, hu⟩ := hu
           subst hab
-          simp only [hca, expectValue] at h
           split at h <;> cases h
           rename_i t' ht'
           rw [binopTyWith_iff _ _ _ hu] at ht'
-          refine ⟨.binop ht' hta htb, ?_⟩
-          simp only [computeTy, hca, expectValue]
-          rw [(binopTyWith_iff _ _ _ hu).mpr ht']
+          exact .binop ht' hta htb
         · cases h
         · cases h
       · cases h
@@ -152,15 +355,15 @@ theorem check_sound_aux (Γ : Ctx) (hΓ : SigsOk Γ) : (e : TExpr) → (t : ETy)
     split at h
     · rename_i tl hl
       rw [checkValue_ok] at hl
-      have ⟨htl, hcl⟩ := check_sound_aux Γ hΓ l _ hl
+      have htl := check_sound_aux Γ hΓ l _ hl
       split at h
       · rename_i tr hr
         rw [checkValue_ok] at hr
-        have ⟨htr, _⟩ := check_sound_aux Γ hΓ r _ hr
+        have htr := check_sound_aux Γ hΓ r _ hr
         split at h
         · rename_i tc hc
           rw [checkValue_ok] at hc
-          have ⟨htc, _⟩ := check_sound_aux Γ hΓ c _ hc
+          have htc := check_sound_aux Γ hΓ c _ hc
           split at h
           · rename_i hi
             split at h
@@ -171,7 +374,7 @@ theorem check_sound_aux (Γ : Ctx) (hΓ : SigsOk Γ) : (e : TExpr) → (t : ETy)
               simp only [requireSame] at hs
               split at hs <;> cases hs
               subst_vars
-              exact ⟨.ternary htc htl htr, by simpa [computeTy] using hcl⟩
+              exact .ternary htc htl htr
             · cases h
             · cases h
           · cases h
@@ -192,8 +395,103 @@ theorem check_sound_aux (Γ : Ctx) (hΓ : SigsOk Γ) : (e : TExpr) → (t : ETy)
         split at h <;> cases h
         rename_i hargs
         have hl : args.length = minArgs ps := by simp only [maxArgs] at hlen; omega
-        exact ⟨.call hps (checkArgs_sound_aux Γ hΓ args ps (hΓ f ps hps) hl hargs), by simp [computeTy, hps]⟩
+        exact .call hps (checkArgs_sound_aux Γ hΓ args ps (hΓ f ps hps) hl hargs)
       · cases h
+  | .diffSwitch first rest, t, h => by
+    simp only [check] at h
+    split at h
+    · rename_i tf hf
+      rw [checkValue_ok] at hf
+      have htf := check_sound_aux Γ hΓ first _ hf
+      split at h
+      · rename_i hc
+        cases h
+        exact .diffSwitch htf (checkCases_sound_aux Γ hΓ tf rest hc)
+      · cases h
+      · cases h
+    · cases h
+    · cases h
+  | .xcrement pre inc v, t, h => by
+    simp only [check] at h
+    split at h
+    · split at h
+      · rename_i tv hv
+        split at h
+        · rename_i hi
+          cases h
+          rw [requireExact_ok_iff'] at hi
+          subst hi
+          exact .xcrement ((checkVar_ok_iff _ _ _).mp hv)
+        · cases h
+        · cases h
+      · cases h
+      · cases h
+    · cases h
+    · cases h
+  | .enumConst en n, t, h => by
+    simp only [check] at h; cases h; exact .enumConst en n
+  | .labelProp l, t, h => by
+    simp only [check] at h; cases h; exact .labelProp l
+  | .callx user f pseudos args, t, h => by
+    simp only [check] at h
+    split at h
+    · rename_i hps
+      have hpt := checkPseudos_sound_aux Γ hΓ pseudos hps
+      split at h
+      · cases h
+      · rename_i hnu
+        split at h
+        · rename_i hb
+          split at h
+          · rename_i hn
+            cases h
+            cases args with
+            | cons _ _ => simp [TArgs.isNil] at hn
+            | nil =>
+              cases user with
+              | false => exact .callBlob hpt hb
+              | true =>
+                -- a user call with a blob has pseudo-arguments: excluded by `hnu`
+                exfalso; apply hnu
+                cases pseudos with
+                | nil => simp [TPseudos.hasBlob] at hb
+                | cons _ _ _ => simp [TPseudos.isNil]
+          · cases h
+        · rename_i hb
+          split at h
+          · cases h
+          · rename_i ps rt hsig
+            split at h
+            · rename_i hlen
+              split at h <;> cases h
+              rename_i hargs
+              have hl : args.length = minArgs ps := by simp only [maxArgs] at hlen; omega
+              have hat := checkArgs_sound_aux Γ hΓ args ps
+                (calleeSig_trailing Γ hΓ user f ps _ hsig) hl hargs
+              cases user with
+              | false =>
+                unfold Ctx.calleeSig at hsig
+                simp only [Bool.false_eq_true, if_false] at hsig
+                cases hs : Γ.sig f with
+                | none => simp [hs] at hsig
+                | some qs =>
+                  simp [hs] at hsig
+                  obtain ⟨rfl, rfl⟩ := hsig
+                  exact .callIns hpt (by simpa using hb) hs hat
+              | true =>
+                unfold Ctx.calleeSig at hsig
+                simp at hsig
+                obtain ⟨rfl, rfl⟩ := hsig
+                rw [fparams_required] at hat
+                have hn : pseudos = .nil := by
+                  cases pseudos with
+                  | nil => rfl
+                  | cons _ _ _ => exfalso; apply hnu; simp [TPseudos.isNil]
+                subst hn
+                exact .callUser hat
+            · cases h
+    · cases h
+    · cases h
 theorem checkArgs_sound_aux (Γ : Ctx) (hΓ : SigsOk Γ) : (as : TArgs) → (ps : List Param) →
     trailingOptional ps = true → as.length = minArgs ps → checkArgs Γ as ps = .ok () →
     ArgsTyped Γ as (required ps)
@@ -213,7 +511,7 @@ theorem checkArgs_sound_aux (Γ : Ctx) (hΓ : SigsOk Γ) : (as : TArgs) → (ps 
       split at h
       · rename_i t ha
         rw [checkValue_ok] at ha
-        have ⟨hta, _⟩ := check_sound_aux Γ hΓ a _ ha
+        have hta := check_sound_aux Γ hΓ a _ ha
         split at h
         · rename_i hpc
           rw [paramCheck_ok_iff] at hpc
@@ -223,20 +521,46 @@ theorem checkArgs_sound_aux (Γ : Ctx) (hΓ : SigsOk Γ) : (as : TArgs) → (ps 
         · cases h
       · cases h
       · cases h
+theorem checkCases_sound_aux (Γ : Ctx) (hΓ : SigsOk Γ) (t : Ty) : (cs : TCases) →
+    checkCases Γ t cs = .ok () → CasesTyped Γ t cs
+  | .nil, _ => .nil
+  | .blank cs, h => by
+    simp only [checkCases] at h
+    exact .blank (checkCases_sound_aux Γ hΓ t cs h)
+  | .case e cs, h => by
+    simp only [checkCases] at h
+    split at h
+    · rename_i t' he
+      rw [checkValue_ok] at he
+      have hte := check_sound_aux Γ hΓ e _ he
+      split at h
+      · rename_i u hs
+        simp only [requireSame] at hs
+        split at hs <;> cases hs
+        subst_vars
+        exact .case hte (checkCases_sound_aux Γ hΓ _ cs h)
+      · cases h
+      · cases h
+    · cases h
+    · cases h
+theorem checkPseudos_sound_aux (Γ : Ctx) (hΓ : SigsOk Γ) : (ps : TPseudos) →
+    checkPseudos Γ ps = .ok () → PseudosTyped Γ ps
+  | .nil, _ => .nil
+  | .cons k e ps, h => by
+    simp only [checkPseudos] at h
+    split at h
+    · rename_i t he
+      rw [checkValue_ok] at he
+      have hte := check_sound_aux Γ hΓ e _ he
+      split at h
+      · rename_i hk
+        rw [pseudoCheck_ok_iff] at hk
+        exact .cons hte hk (checkPseudos_sound_aux Γ hΓ ps h)
+      · cases h
+      · cases h
+    · cases h
+    · cases h
 end
-
-
-theorem length_of_argsTyped (Γ : Ctx) : (as : TArgs) → (ps : List Param) → ArgsTyped Γ as ps →
-    as.length = ps.length
-  | .nil, _, h => by cases h; rfl
-  | .cons a as, _, h => by
-    cases h with
-    | cons _ _ hr => simp [TArgs.length, length_of_argsTyped Γ as _ hr]
-
-theorem minArgs_eq_required (ps : List Param) : minArgs ps = (required ps).length := by
-  induction ps with
-  | nil => rfl
-  | cons p ps ih => by_cases hp : p.optional <;> simp [minArgs, required, hp, ih]; omega
 
 mutual
 theorem check_complete_aux (Γ : Ctx) (hΓ : SigsOk Γ) : (e : TExpr) → (t : ETy) → HasType Γ e t →
@@ -253,19 +577,24 @@ theorem check_complete_aux (Γ : Ctx) (hΓ : SigsOk Γ) : (e : TExpr) → (t : E
   | .unop op x, t, h => by
     cases h with
     | unop hu hx =>
+      rename_i tx t'
       have cx := check_complete_aux Γ hΓ x _ hx
-      have ccx := (check_sound_aux Γ hΓ x _ cx).2
-      simp only [check, (checkValue_ok _ _ _).mpr cx, (unopCheck_ok_iff _ _).mpr ⟨_, hu⟩, ccx,
-        expectValue, (unopTyWith_iff _ _ _ ⟨_, hu⟩).mpr hu]
+      have hck := (unopCheck_ok_iff op tx).mpr ⟨_, hu⟩
+      have hrw := unopTyWith_computeTy Γ op x tx hck
+        (fun hne => computeTy_of_check_gen Γ x _ cx (Or.inr (by simpa using hne)))
+      simp only [check, (checkValue_ok _ _ _).mpr cx, hck, hrw,
+        (unopTyWith_iff _ _ _ ⟨_, hu⟩).mpr hu]
   | .binop op a b, t, h => by
     cases h with
     | binop hu ha hb =>
+      rename_i tx t'
       have ca := check_complete_aux Γ hΓ a _ ha
       have cb := check_complete_aux Γ hΓ b _ hb
-      have cca := (check_sound_aux Γ hΓ a _ ca).2
+      have hck := (binopCheck_ok_iff op tx tx).mpr ⟨rfl, _, hu⟩
+      have hrw := binopTyWith_computeTy Γ op a tx tx hck
+        (fun hne => computeTy_of_check_gen Γ a _ ca (Or.inr (by simpa using hne)))
       simp only [check, (checkValue_ok _ _ _).mpr ca, (checkValue_ok _ _ _).mpr cb,
-        (binopCheck_ok_iff _ _ _).mpr ⟨rfl, _, hu⟩, cca, expectValue,
-        (binopTyWith_iff _ _ _ ⟨_, hu⟩).mpr hu]
+        hck, hrw, (binopTyWith_iff _ _ _ ⟨_, hu⟩).mpr hu]
   | .ternary c l r, t, h => by
     cases h with
     | ternary hc hl hr =>
@@ -282,6 +611,42 @@ theorem check_complete_aux (Γ : Ctx) (hΓ : SigsOk Γ) : (e : TExpr) → (t : E
       rw [← minArgs_eq_required] at hlen
       have := checkArgs_complete_aux Γ hΓ args ps (hΓ f ps hps) hargs
       simp [check, hps, maxArgs, hlen, this]
+  | .diffSwitch first rest, t, h => by
+    cases h with
+    | diffSwitch hf hr =>
+      have cf := check_complete_aux Γ hΓ first _ hf
+      have cr := checkCases_complete_aux Γ hΓ _ rest hr
+      simp [check, (checkValue_ok _ _ _).mpr cf, cr]
+  | .xcrement pre inc v, t, h => by
+    cases h with
+    | xcrement hr =>
+      -- `rfl`: the switch is off in Model/Types.lean (the code as it is does not look at the
+      -- operand's assignability; once it does, completeness needs `WritesOk Γ e` as a hypothesis)
+      have : checksXcrementTarget = false := rfl
+      simp [check, this, (checkVar_ok_iff _ _ _).mpr hr, requireExact]
+  | .enumConst en n, t, h => by cases h; rfl
+  | .labelProp l, t, h => by cases h; rfl
+  | .callx user f pseudos args, t, h => by
+    cases h with
+    | callIns hp hb hps hargs =>
+      rename_i ps
+      have hlen := length_of_argsTyped Γ _ _ hargs
+      rw [← minArgs_eq_required] at hlen
+      have ha := checkArgs_complete_aux Γ hΓ args ps (hΓ f ps hps) hargs
+      have hcp := checkPseudos_complete_aux Γ hΓ pseudos hp
+      simp [check, hcp, hb, Ctx.calleeSig, hps, maxArgs, hlen, ha]
+    | callBlob hp hb =>
+      have hcp := checkPseudos_complete_aux Γ hΓ pseudos hp
+      simp [check, hcp, hb, TArgs.isNil]
+    | callUser hargs =>
+      have hlen := length_of_argsTyped Γ _ _ hargs
+      have hreq := fparams_required Γ f
+      have hargs' : ArgsTyped Γ args (required (Γ.fparams f)) := by rw [hreq]; exact hargs
+      have hmin : minArgs (Γ.fparams f) = (Γ.fparams f).length := by
+        rw [minArgs_eq_required, hreq]
+      have ha := checkArgs_complete_aux Γ hΓ args _ (fparams_trailing Γ f) hargs'
+      simp [check, checkPseudos, TPseudos.isNil, TPseudos.hasBlob, Ctx.calleeSig, maxArgs, hmin,
+        hlen, ha]
 theorem checkArgs_complete_aux (Γ : Ctx) (hΓ : SigsOk Γ) : (as : TArgs) → (ps : List Param) →
     trailingOptional ps = true → ArgsTyped Γ as (required ps) → checkArgs Γ as ps = .ok ()
   | .nil, ps, _, _ => by simp [checkArgs]
@@ -299,20 +664,41 @@ theorem checkArgs_complete_aux (Γ : Ctx) (hΓ : SigsOk Γ) : (as : TArgs) → (
         have ca := check_complete_aux Γ hΓ a _ ha
         have := checkArgs_complete_aux Γ hΓ as ps (by simpa using htr) hr
         simp [checkArgs, (checkValue_ok _ _ _).mpr ca, (paramCheck_ok_iff _ _).mpr hpa, this]
+theorem checkCases_complete_aux (Γ : Ctx) (hΓ : SigsOk Γ) (t : Ty) : (cs : TCases) →
+    CasesTyped Γ t cs → checkCases Γ t cs = .ok ()
+  | .nil, _ => by simp [checkCases]
+  | .blank cs, h => by
+    cases h with
+    | blank hr => simp [checkCases, checkCases_complete_aux Γ hΓ t cs hr]
+  | .case e cs, h => by
+    cases h with
+    | case he hr =>
+      have ce := check_complete_aux Γ hΓ e _ he
+      simp [checkCases, (checkValue_ok _ _ _).mpr ce, requireSame,
+        checkCases_complete_aux Γ hΓ t cs hr]
+theorem checkPseudos_complete_aux (Γ : Ctx) (hΓ : SigsOk Γ) : (ps : TPseudos) →
+    PseudosTyped Γ ps → checkPseudos Γ ps = .ok ()
+  | .nil, _ => by simp [checkPseudos]
+  | .cons k e ps, h => by
+    cases h with
+    | cons he hk hr =>
+      have ce := check_complete_aux Γ hΓ e _ he
+      simp [checkPseudos, (checkValue_ok _ _ _).mpr ce, (pseudoCheck_ok_iff _ _).mpr hk,
+        checkPseudos_complete_aux Γ hΓ ps hr]
 end
 
 
 
 theorem check_iff (Γ : Ctx) (hΓ : SigsOk Γ) (e : TExpr) (t : ETy) :
     check Γ e = .ok t ↔ HasType Γ e t :=
-  ⟨fun h => (check_sound_aux Γ hΓ e t h).1, check_complete_aux Γ hΓ e t⟩
+  ⟨check_sound_aux Γ hΓ e t, check_complete_aux Γ hΓ e t⟩
 
 theorem andThen_ok_iff (a b : Outcome Unit) :
     a.andThen b = .ok () ↔ a = .ok () ∧ b = .ok () := by
   cases a <;> cases b <;> simp [Outcome.andThen]
 
-theorem requireExact_ok_iff (t u : Ty) : requireExact t u = .ok () ↔ t = u := by
-  unfold requireExact; split <;> simp_all
+theorem requireExact_ok_iff (t u : Ty) : requireExact t u = .ok () ↔ t = u :=
+  requireExact_ok_iff' t u
 
 theorem requireSame_ok_iff (t u v : Ty) : requireSame t u = .ok v ↔ (t = u ∧ v = t) := by
   unfold requireSame; split <;> simp_all [eq_comm]
@@ -545,6 +931,36 @@ theorem checkLabel_ok_iff (cfg : Cfg) (Γ : Ctx) (hΓ : SigsOk Γ) (e : TExpr)
     · intro _; exact lit_hasType Γ e _ hc
     · intro _; rfl
 
+theorem checkDecl_ok_iff' (Γ : Ctx) (hΓ : SigsOk Γ) (x : Nat) (init : Option TExpr) :
+    checkDecl Γ x init = .ok () ↔ DeclOk Γ x init := by
+  cases init with
+  | none => simp [checkDecl, DeclOk]
+  | some e => simpa [DeclOk] using checkDecl_ok_iff Γ hΓ x e
+
+theorem checkDecls_ok_iff (Γ : Ctx) (hΓ : SigsOk Γ) : (ds : List (Nat × Option TExpr)) →
+    (checkDecls Γ ds = .ok () ↔ ∀ p ∈ ds, DeclOk Γ p.1 p.2)
+  | [] => by simp [checkDecls]
+  | (x, init) :: rest => by
+    simp only [checkDecls, andThen_ok_iff, checkDecl_ok_iff' Γ hΓ, checkDecls_ok_iff Γ hΓ rest,
+      List.mem_cons, forall_eq_or_imp]
+
+theorem checkConstDecls_ok_iff (cfg : Cfg) (Γ : Ctx) (hΓ : SigsOk Γ) (ρ : Option ETy) :
+    (ds : List (Nat × TExpr)) →
+    (cfg.checksConstDeclTy = true ∨ ∀ p ∈ ds, ∃ t, litTy p.2 = some t ∧ Γ.varTy p.1 = .typed t) →
+    (checkConstDecls cfg Γ ds = .ok () ↔ ∀ p ∈ ds, DeclOk Γ p.1 (some p.2))
+  | [], _ => by simp [checkConstDecls]
+  | (x, e) :: rest, hc => by
+    have h1 : Covered cfg Γ (.constDecl x e) := by
+      simp only [Covered]
+      exact hc.imp id (fun h => h (x, e) (by simp))
+    have h2 : cfg.checksConstDeclTy = true ∨
+        ∀ p ∈ rest, ∃ t, litTy p.2 = some t ∧ Γ.varTy p.1 = .typed t :=
+      hc.imp id (fun h p hp => h p (by simp [hp]))
+    have := checkConstDecl_ok_iff (ρ := ρ) cfg Γ hΓ x e h1
+    simp only [WellTypedStmt] at this
+    simp only [checkConstDecls, andThen_ok_iff, this, checkConstDecls_ok_iff cfg Γ hΓ ρ rest h2,
+      List.mem_cons, forall_eq_or_imp, DeclOk]
+
 mutual
 theorem checkStmt_iff (cfg : Cfg) (Γ : Ctx) (hΓ : SigsOk Γ) : (ρ : Option ETy) → (s : Stmt) →
     Covered cfg Γ s → (checkStmt cfg Γ ρ s = .ok () ↔ WellTypedStmt Γ ρ s)
@@ -592,6 +1008,11 @@ theorem checkStmt_iff (cfg : Cfg) (Γ : Ctx) (hΓ : SigsOk Γ) : (ρ : Option ET
   | ρ, .relTimeLabel e, hc => by
     simp only [Covered] at hc
     simp only [checkStmt, WellTypedStmt]; exact checkLabel_ok_iff cfg Γ hΓ e hc
+  | ρ, .decls ds, _ => by
+    simp only [checkStmt, WellTypedStmt]; exact checkDecls_ok_iff Γ hΓ ds
+  | ρ, .constDecls ds, hc => by
+    simp only [Covered] at hc
+    simp only [checkStmt, WellTypedStmt]; exact checkConstDecls_ok_iff cfg Γ hΓ ρ ds hc
 theorem checkStmts_iff (cfg : Cfg) (Γ : Ctx) (hΓ : SigsOk Γ) : (ρ : Option ETy) → (ss : Stmts) →
     CoveredS cfg Γ ss → (checkStmts cfg Γ ρ ss = .ok () ↔ WellTypedStmts Γ ρ ss)
   | ρ, .nil, _ => by simp [checkStmts, WellTypedStmts]
@@ -640,52 +1061,55 @@ theorem unop_sigil_ty (F : FloatOps) (op : UnOp) (s : Sigil) (v : Value) (t t' :
 theorem ty_int_cases (v : Value) (h : v.ty = .int) : ∃ x, v = .int x := by
   cases v <;> simp_all [Value.ty]
 
-theorem preservation_aux (F : FloatOps) (Γ : Ctx) (cs : Consts) (env : Env) (hE : EnvOk Γ cs env) :
-    (e : TExpr) → (t : Ty) → HasType Γ e (.value t) →
-    ∃ e', e.erase = some e' ∧ (∀ v, eval F cs env e' = .ok v → v.ty = t) ∧
-      (∀ s, eval F cs env e' ≠ .panic s)
-  | .litI x, t, h => by
-    cases h; exact ⟨_, rfl, by intro v hv; simp [eval] at hv; subst hv; rfl, by simp [eval]⟩
-  | .litF x, t, h => by
-    cases h; exact ⟨_, rfl, by intro v hv; simp [eval] at hv; subst hv; rfl, by simp [eval]⟩
-  | .litS x, t, h => by
-    cases h; exact ⟨_, rfl, by intro v hv; simp [eval] at hv; subst hv; rfl, by simp [eval]⟩
+/-- what type preservation says about one evaluation: a value has the static type, and no
+"type error" panic is reached -/
+def ValOk (t : Ty) (o : Outcome Value) : Prop := (∀ v, o = .ok v → v.ty = t) ∧ (∀ s, o ≠ .panic s)
+
+theorem readVar_valOk (F : FloatOps) (Γ : Ctx) (cs : Consts) (env : Env) (hE : EnvOk Γ cs env)
+    (n : Nat) (sig : Option Sigil) (t : Ty) (hr : ReadTy (Γ.varTy n) sig t) :
+    ValOk t (match cs n with
+      | some c => match castBySigil F c sig with
+        | some w => Outcome.ok w
+        | none => .panic "cannot cast"
+      | none => .ok (env.loc n sig)) := by
+  cases hc : cs n with
+  | none =>
+    refine ⟨?_, by simp⟩
+    intro v hv; simp at hv; subst hv; exact hE.loc n sig t hc hr
+  | some c =>
+    have hty := hE.const n c hc
+    rw [hty] at hr
+    obtain ⟨w, hw, hwt⟩ := castBySigil_ty F c sig t hr
+    refine ⟨?_, by simp [hw]⟩
+    intro v hv; simp [hw] at hv; subst hv; exact hwt
+
+mutual
+theorem preservationT_aux (F : FloatOps) (Γ : Ctx) (cs : Consts) (env : Env) (hE : EnvOk Γ cs env)
+    (x : XEnv) (hX : XEnvOk Γ x) :
+    (e : TExpr) → (t : Ty) → HasType Γ e (.value t) → ValOk t (evalT F cs env x e)
+  | .litI i, t, h => by
+    cases h; exact ⟨by intro v hv; simp [evalT] at hv; subst hv; rfl, by simp [evalT]⟩
+  | .litF i, t, h => by
+    cases h; exact ⟨by intro v hv; simp [evalT] at hv; subst hv; rfl, by simp [evalT]⟩
+  | .litS i, t, h => by
+    cases h; exact ⟨by intro v hv; simp [evalT] at hv; subst hv; rfl, by simp [evalT]⟩
   | .reg r sig, t, h => by
     cases h with
     | reg hr =>
-      refine ⟨_, rfl, ?_, by simp [eval]⟩
-      intro v hv; simp [eval] at hv; subst hv; exact hE.reg r sig t hr
+      refine ⟨?_, by simp [evalT]⟩
+      intro v hv; simp [evalT] at hv; subst hv; exact hE.reg r sig t hr
   | .var n sig, t, h => by
     cases h with
-    | var hr =>
-      refine ⟨_, rfl, ?_, ?_⟩
-      · intro v hv
-        simp only [eval] at hv
-        cases hc : cs n with
-        | none => simp [hc] at hv; subst hv; exact hE.loc n sig t hc hr
-        | some c =>
-          have hty := hE.const n c hc
-          rw [hty] at hr
-          obtain ⟨w, hw, hwt⟩ := castBySigil_ty F c sig t hr
-          simp [hc, hw] at hv; subst hv; exact hwt
-      · intro s
-        simp only [eval]
-        cases hc : cs n with
-        | none => simp
-        | some c =>
-          have hty := hE.const n c hc
-          rw [hty] at hr
-          obtain ⟨w, hw, _⟩ := castBySigil_ty F c sig t hr
-          simp [hw]
-  | .unop op x, t, h => by
+    | var hr => simp only [evalT]; exact readVar_valOk F Γ cs env hE n sig t hr
+  | .unop op a, t, h => by
     cases h with
     | unop hop hx =>
       rename_i tx
-      obtain ⟨x', hx', hty, hnp⟩ := preservation_aux F Γ cs env hE x tx hx
-      refine ⟨.unop op x', by simp [TExpr.erase, hx'], ?_, ?_⟩
+      obtain ⟨hty, hnp⟩ := preservationT_aux F Γ cs env hE x hX a tx hx
+      constructor
       · intro v hv
-        simp only [eval] at hv
-        cases hev : eval F cs env x' with
+        simp only [evalT] at hv
+        cases hev : evalT F cs env x a with
         | ok vx =>
           have hvx := hty vx hev
           simp only [hev] at hv
@@ -699,8 +1123,8 @@ theorem preservation_aux (F : FloatOps) (Γ : Ctx) (cs : Consts) (env : Env) (hE
         | err c => simp [hev] at hv
         | panic s => simp [hev] at hv
       · intro s
-        simp only [eval]
-        cases hev : eval F cs env x' with
+        simp only [evalT]
+        cases hev : evalT F cs env x a with
         | ok vx =>
           have hvx := hty vx hev
           cases hs : sigilOfUnop op with
@@ -716,14 +1140,14 @@ theorem preservation_aux (F : FloatOps) (Γ : Ctx) (cs : Consts) (env : Env) (hE
     cases h with
     | binop hop ha hb =>
       rename_i tx
-      obtain ⟨a', ha', htya, hnpa⟩ := preservation_aux F Γ cs env hE a tx ha
-      obtain ⟨b', hb', htyb, hnpb⟩ := preservation_aux F Γ cs env hE b tx hb
-      refine ⟨.binop op a' b', by simp [TExpr.erase, ha', hb'], ?_, ?_⟩
+      obtain ⟨htya, hnpa⟩ := preservationT_aux F Γ cs env hE x hX a tx ha
+      obtain ⟨htyb, hnpb⟩ := preservationT_aux F Γ cs env hE x hX b tx hb
+      constructor
       · intro v hv
-        simp only [eval] at hv
-        cases hea : eval F cs env a' with
+        simp only [evalT] at hv
+        cases hea : evalT F cs env x a with
         | ok va =>
-          cases heb : eval F cs env b' with
+          cases heb : evalT F cs env x b with
           | ok vb =>
             simp only [hea, heb] at hv
             exact (binop_ty F op va vb tx t (htya va hea) (htyb vb heb) hop).1 v hv
@@ -732,10 +1156,10 @@ theorem preservation_aux (F : FloatOps) (Γ : Ctx) (cs : Consts) (env : Env) (hE
         | err c => simp [hea] at hv
         | panic s => simp [hea] at hv
       · intro s
-        simp only [eval]
-        cases hea : eval F cs env a' with
+        simp only [evalT]
+        cases hea : evalT F cs env x a with
         | ok va =>
-          cases heb : eval F cs env b' with
+          cases heb : evalT F cs env x b with
           | ok vb => exact (binop_ty F op va vb tx t (htya va hea) (htyb vb heb) hop).2 s
           | err c => simp
           | panic s' => exact absurd heb (hnpb s')
@@ -744,15 +1168,15 @@ theorem preservation_aux (F : FloatOps) (Γ : Ctx) (cs : Consts) (env : Env) (hE
   | .ternary c l r, t, h => by
     cases h with
     | ternary hc hl hr =>
-      obtain ⟨c', hc', htyc, hnpc⟩ := preservation_aux F Γ cs env hE c .int hc
-      obtain ⟨l', hl', htyl, hnpl⟩ := preservation_aux F Γ cs env hE l t hl
-      obtain ⟨r', hr', htyr, hnpr⟩ := preservation_aux F Γ cs env hE r t hr
-      refine ⟨.ternary c' l' r', by simp [TExpr.erase, hc', hl', hr'], ?_, ?_⟩
+      obtain ⟨htyc, hnpc⟩ := preservationT_aux F Γ cs env hE x hX c .int hc
+      obtain ⟨htyl, hnpl⟩ := preservationT_aux F Γ cs env hE x hX l t hl
+      obtain ⟨htyr, hnpr⟩ := preservationT_aux F Γ cs env hE x hX r t hr
+      constructor
       · intro v hv
-        simp only [eval] at hv
-        cases hec : eval F cs env c' with
+        simp only [evalT] at hv
+        cases hec : evalT F cs env x c with
         | ok vc =>
-          obtain ⟨x, rfl⟩ := ty_int_cases vc (htyc vc hec)
+          obtain ⟨i, rfl⟩ := ty_int_cases vc (htyc vc hec)
           simp only [hec] at hv
           split at hv
           · exact htyr v hv
@@ -760,10 +1184,10 @@ theorem preservation_aux (F : FloatOps) (Γ : Ctx) (cs : Consts) (env : Env) (hE
         | err e => simp [hec] at hv
         | panic s => simp [hec] at hv
       · intro s
-        simp only [eval]
-        cases hec : eval F cs env c' with
+        simp only [evalT]
+        cases hec : evalT F cs env x c with
         | ok vc =>
-          obtain ⟨x, rfl⟩ := ty_int_cases vc (htyc vc hec)
+          obtain ⟨i, rfl⟩ := ty_int_cases vc (htyc vc hec)
           simp only
           split
           · exact hnpr s
@@ -771,90 +1195,124 @@ theorem preservation_aux (F : FloatOps) (Γ : Ctx) (cs : Consts) (env : Env) (hE
         | err e => simp
         | panic s' => exact absurd hec (hnpc s')
   | .call f args, t, h => by cases h
+  | .diffSwitch first rest, t, h => by
+    cases h with
+    | diffSwitch hf hr =>
+      simp only [evalT]
+      exact preservationCases_aux F Γ cs env hE x hX rest t hr x.diff _
+        (preservationT_aux F Γ cs env hE x hX first t hf)
+  | .xcrement pre inc v, t, h => by
+    cases h with
+    | xcrement hr =>
+      -- reading the operand gives an int
+      have hread : ValOk .int (if v.isReg then Outcome.ok (env.reg v.id v.sig) else
+            match cs v.id with
+            | some c => match castBySigil F c v.sig with
+              | some w => Outcome.ok w
+              | none => .panic "cannot cast"
+            | none => .ok (env.loc v.id v.sig)) := by
+        unfold Ctx.refTy at hr
+        cases hreg : v.isReg with
+        | true =>
+          simp only [hreg, if_true] at hr ⊢
+          exact ⟨by intro w hw; cases hw; exact hE.reg _ _ _ hr, by simp⟩
+        | false =>
+          simp only [hreg, Bool.false_eq_true, if_false] at hr ⊢
+          exact readVar_valOk F Γ cs env hE v.id v.sig .int hr
+      simp only [evalT]
+      generalize (if v.isReg then Outcome.ok (env.reg v.id v.sig) else
+            match cs v.id with
+            | some c => match castBySigil F c v.sig with
+              | some w => Outcome.ok w
+              | none => .panic "cannot cast"
+            | none => .ok (env.loc v.id v.sig)) = o at hread ⊢
+      cases o with
+      | ok w =>
+        obtain ⟨i, rfl⟩ := ty_int_cases w (hread.1 w rfl)
+        exact ⟨by intro u hu; simp at hu; subst hu; rfl, by simp⟩
+      | err c => exact ⟨by simp, by simp⟩
+      | panic s => exact absurd rfl (hread.2 s)
+  | .enumConst en n, t, h => by
+    cases h
+    exact ⟨by intro v hv; simp [evalT] at hv; subst hv; exact hX.enum en n, by simp [evalT]⟩
+  | .labelProp l, t, h => by
+    cases h; exact ⟨by intro v hv; simp [evalT] at hv; subst hv; rfl, by simp [evalT]⟩
+  | .callx user f ps args, t, h => by
+    exact ⟨by simp [evalT], by simp [evalT]⟩
+theorem preservationCases_aux (F : FloatOps) (Γ : Ctx) (cs : Consts) (env : Env)
+    (hE : EnvOk Γ cs env) (x : XEnv) (hX : XEnvOk Γ x) :
+    (rest : TCases) → (t : Ty) → CasesTyped Γ t rest → (d : Nat) → (cur : Unit → Outcome Value) →
+    ValOk t (cur ()) → ValOk t (evalCaseT F cs env x d cur rest)
+  | rest, t, _, 0, cur, hc => by cases rest <;> simpa [evalCaseT] using hc
+  | .nil, t, _, d + 1, cur, hc => by exact ⟨by simp [evalCaseT], by simp [evalCaseT]⟩
+  | .blank rest, t, h, d + 1, cur, hc => by
+    cases h with
+    | blank hr =>
+      simp only [evalCaseT]
+      exact preservationCases_aux F Γ cs env hE x hX rest t hr d cur hc
+  | .case e rest, t, h, d + 1, cur, hc => by
+    cases h with
+    | case he hr =>
+      simp only [evalCaseT]
+      exact preservationCases_aux F Γ cs env hE x hX rest t hr d _
+        (preservationT_aux F Γ cs env hE x hX e t he)
+end
+
+/-- on the expressions of the C11 model `evalT` is the VM model `eval` -/
+theorem evalT_erase (F : FloatOps) (cs : Consts) (env : Env) (x : XEnv) :
+    (e : TExpr) → (e' : Expr) → e.erase = some e' → evalT F cs env x e = eval F cs env e'
+  | .litI _, e', h | .litF _, e', h | .litS _, e', h | .reg _ _, e', h | .var _ _, e', h => by
+    simp only [TExpr.erase, Option.some.injEq] at h; subst h; simp only [evalT, eval] <;> rfl
+  | .unop op a, e', h => by
+    simp only [TExpr.erase] at h
+    cases ha : a.erase with
+    | none => simp [ha] at h
+    | some a' =>
+      simp [ha] at h; subst h
+      simp only [evalT, eval, evalT_erase F cs env x a a' ha]; rfl
+  | .binop op a b, e', h => by
+    simp only [TExpr.erase] at h
+    cases ha : a.erase with
+    | none => simp [ha] at h
+    | some a' =>
+      cases hb : b.erase with
+      | none => simp [ha, hb] at h
+      | some b' =>
+        simp [ha, hb] at h; subst h
+        simp only [evalT, eval, evalT_erase F cs env x a a' ha, evalT_erase F cs env x b b' hb]; rfl
+  | .ternary c l r, e', h => by
+    simp only [TExpr.erase] at h
+    cases hc : c.erase with
+    | none => simp [hc] at h
+    | some c' =>
+      cases hl : l.erase with
+      | none => simp [hc, hl] at h
+      | some l' =>
+        cases hr : r.erase with
+        | none => simp [hc, hl, hr] at h
+        | some r' =>
+          simp [hc, hl, hr] at h; subst h
+          simp only [evalT, eval, evalT_erase F cs env x c c' hc, evalT_erase F cs env x l l' hl,
+            evalT_erase F cs env x r r' hr]; rfl
+  | .call _ _, e', h | .diffSwitch _ _, e', h | .xcrement _ _ _, e', h | .enumConst _ _, e', h
+  | .labelProp _, e', h | .callx _ _ _ _, e', h => by simp [TExpr.erase] at h
+
+/-- the C11 form: whenever a value-typed expression is an expression of the VM model -/
+theorem preservation_aux (F : FloatOps) (Γ : Ctx) (cs : Consts) (env : Env) (hE : EnvOk Γ cs env)
+    (e : TExpr) (t : Ty) (h : HasType Γ e (.value t)) (e' : Expr) (he : e.erase = some e') :
+    (∀ v, eval F cs env e' = .ok v → v.ty = t) ∧ (∀ s, eval F cs env e' ≠ .panic s) := by
+  let x : XEnv := ⟨0, fun en _ => if Γ.enumStr en then .str "" else .int 0, fun _ => 0⟩
+  have hX : XEnvOk Γ x := ⟨by intro en n; simp only [x, Ctx.enumTy]; split <;> rfl⟩
+  have := preservationT_aux F Γ cs env hE x hX e t h
+  rw [evalT_erase F cs env x e e' he] at this
+  exact this
 
 
-/-- `compute_ty` agrees with `check_expr` on every accepted expression (no hypothesis on the
-signatures is needed for this direction). -/
-theorem computeTy_of_check (Γ : Ctx) : (e : TExpr) → (t : ETy) → check Γ e = .ok t →
-    computeTy Γ e = .ok t
-  | .litI v, t, h => by simp only [check] at h; cases h; rfl
-  | .litF v, t, h => by simp only [check] at h; cases h; rfl
-  | .litS v, t, h => by simp only [check] at h; cases h; rfl
-  | .reg r sig, t, h => by
-    simp only [check] at h
-    split at h <;> cases h
-    rename_i u hu
-    simp [computeTy, checkVar_readTy hu]
-  | .var n sig, t, h => by
-    simp only [check] at h
-    split at h <;> cases h
-    rename_i u hu
-    simp [computeTy, checkVar_readTy hu]
-  | .unop op x, t, h => by
-    simp only [check] at h
-    split at h
-    · rename_i tx hx
-      rw [checkValue_ok] at hx
-      have hcx := computeTy_of_check Γ x _ hx
-      split at h
-      · simp only [hcx, expectValue] at h
-        simp only [computeTy, hcx, expectValue]
-        exact h
-      · cases h
-      · cases h
-    · cases h
-    · cases h
-  | .binop op a b, t, h => by
-    simp only [check] at h
-    split at h
-    · rename_i ta ha
-      rw [checkValue_ok] at ha
-      have hca := computeTy_of_check Γ a _ ha
-      split at h
-      · split at h
-        · simp only [hca, expectValue] at h
-          simp only [computeTy, hca, expectValue]
-          exact h
-        · cases h
-        · cases h
-      · cases h
-      · cases h
-    · cases h
-    · cases h
-  | .ternary c l r, t, h => by
-    simp only [check] at h
-    split at h
-    · rename_i tl hl
-      rw [checkValue_ok] at hl
-      have hcl := computeTy_of_check Γ l _ hl
-      split at h
-      · split at h
-        · split at h
-          · split at h
-            · rename_i u hs
-              cases h
-              simp only [requireSame] at hs
-              split at hs <;> cases hs
-              simpa [computeTy] using hcl
-            · cases h
-            · cases h
-          · cases h
-          · cases h
-        · cases h
-        · cases h
-      · cases h
-      · cases h
-    · cases h
-    · cases h
-  | .call f args, t, h => by
-    simp only [check] at h
-    split at h
-    · cases h
-    · rename_i ps hps
-      split at h
-      · split at h <;> cases h
-        simp [computeTy, hps]
-      · cases h
+/-- `compute_ty` agrees with `check_expr` on every accepted expression in which no qualified
+constant of a string enum occurs (no hypothesis on the signatures is needed). -/
+theorem computeTy_of_check (Γ : Ctx) (e : TExpr) (t : ETy) (h : check Γ e = .ok t)
+    (hE : EnumOk Γ e) : computeTy Γ e = .ok t :=
+  computeTy_of_check_gen Γ e t h (Or.inl hE)
 
 theorem bind_requireValue_ne_panic {x : Outcome ETy} {s : String}
     (h : ∀ s, x ≠ .panic s) : (x >>= requireValue) ≠ .panic s := by
@@ -877,6 +1335,16 @@ theorem binopTyWith_ok_ne_panic (op : BinOp) (a : Ty) (s : String) :
 theorem unopTyWith_ok_ne_panic (op : UnOp) (a : Ty) (s : String) :
     unopTyWith op (fun _ => .ok a) ≠ .panic s := by
   cases op <;> simp [unopTyWith]
+
+theorem checkVar_ne_panic (inh : VarTy) (sig : Option Sigil) (s : String) :
+    checkVar inh sig ≠ .panic s := by
+  cases inh with
+  | untyped => cases sig <;> simp [checkVar, readTy]
+  | typed u => cases sig <;> cases u <;> simp [checkVar, readTy]
+
+theorem checkAssignable_ne_panic (Γ : Ctx) (v : VarRef) (s : String) :
+    checkAssignable Γ v ≠ .panic s := by
+  unfold checkAssignable; split <;> simp
 
 mutual
 /-- The type checker has no panic of its own on any expression (the `expect`s inside
@@ -901,9 +1369,10 @@ theorem check_ne_panic (Γ : Ctx) : (e : TExpr) → (s : String) → check Γ e 
     split at h
     · rename_i tx hx
       rw [checkValue_ok] at hx
-      have hcx := computeTy_of_check Γ x _ hx
       split at h
-      · simp only [hcx, expectValue] at h
+      · rename_i hu
+        rw [unopTyWith_computeTy Γ op x tx hu
+          (fun hne => computeTy_of_check_gen Γ x _ hx (Or.inr (by simpa using hne)))] at h
         split at h <;> try (cases h)
         rename_i s' hs'
         exact unopTyWith_ok_ne_panic _ _ _ hs'
@@ -918,10 +1387,11 @@ theorem check_ne_panic (Γ : Ctx) : (e : TExpr) → (s : String) → check Γ e 
     split at h
     · rename_i ta ha
       rw [checkValue_ok] at ha
-      have hca := computeTy_of_check Γ a _ ha
       split at h
       · split at h
-        · simp only [hca, expectValue] at h
+        · rename_i hu
+          rw [binopTyWith_computeTy Γ op a ta _ hu
+            (fun hne => computeTy_of_check_gen Γ a _ ha (Or.inr (by simpa using hne)))] at h
           split at h <;> try (cases h)
           rename_i s' hs'
           exact binopTyWith_ok_ne_panic _ _ _ hs'
@@ -969,6 +1439,56 @@ theorem check_ne_panic (Γ : Ctx) : (e : TExpr) → (s : String) → check Γ e 
         · cases h
         · rename_i s' hs'; exact checkArgs_ne_panic Γ args ps s' hs'
       · cases h
+  | .diffSwitch first rest, s => by
+    simp only [check]
+    intro h
+    split at h
+    · split at h
+      · cases h
+      · cases h
+      · rename_i s' hs'; exact checkCases_ne_panic Γ _ rest s' hs'
+    · cases h
+    · rename_i s' hs'
+      exact bind_requireValue_ne_panic (fun s => check_ne_panic Γ first s) hs'
+  | .xcrement pre inc v, s => by
+    simp only [check]
+    intro h
+    split at h
+    · split at h
+      · split at h
+        · cases h
+        · cases h
+        · rename_i s' hs'
+          simp only [requireExact] at hs'
+          split at hs' <;> cases hs'
+      · cases h
+      · rename_i s' hs'
+        exact checkVar_ne_panic _ _ _ hs'
+    · cases h
+    · rename_i s' hs'
+      split at hs'
+      · exact checkAssignable_ne_panic Γ v s' hs'
+      · cases hs'
+  | .enumConst en n, s => by simp [check]
+  | .labelProp l, s => by simp [check]
+  | .callx user f pseudos args, s => by
+    simp only [check]
+    intro h
+    split at h
+    · split at h
+      · cases h
+      · split at h
+        · split at h <;> cases h
+        · split at h
+          · cases h
+          · split at h
+            · split at h
+              · cases h
+              · cases h
+              · rename_i s' hs'; exact checkArgs_ne_panic Γ args _ s' hs'
+            · cases h
+    · cases h
+    · rename_i s' hs'; exact checkPseudos_ne_panic Γ pseudos s' hs'
 theorem checkArgs_ne_panic (Γ : Ctx) : (as : TArgs) → (ps : List Param) → (s : String) →
     checkArgs Γ as ps ≠ .panic s
   | .nil, ps, s => by simp [checkArgs]
@@ -994,6 +1514,38 @@ theorem checkArgs_ne_panic (Γ : Ctx) : (as : TArgs) → (ps : List Param) → (
     · cases h
     · rename_i s' hs'
       exact bind_requireValue_ne_panic (fun s => check_ne_panic Γ a s) hs'
+theorem checkCases_ne_panic (Γ : Ctx) (t : Ty) : (cs : TCases) → (s : String) →
+    checkCases Γ t cs ≠ .panic s
+  | .nil, s => by simp [checkCases]
+  | .blank cs, s => by simp only [checkCases]; exact checkCases_ne_panic Γ t cs s
+  | .case e cs, s => by
+    simp only [checkCases]
+    intro h
+    split at h
+    · split at h
+      · exact checkCases_ne_panic Γ t cs s h
+      · cases h
+      · rename_i s' hs'
+        simp only [requireSame] at hs'
+        split at hs' <;> cases hs'
+    · cases h
+    · rename_i s' hs'
+      exact bind_requireValue_ne_panic (fun s => check_ne_panic Γ e s) hs'
+theorem checkPseudos_ne_panic (Γ : Ctx) : (ps : TPseudos) → (s : String) →
+    checkPseudos Γ ps ≠ .panic s
+  | .nil, s => by simp [checkPseudos]
+  | .cons k e ps, s => by
+    simp only [checkPseudos]
+    intro h
+    split at h
+    · split at h
+      · exact checkPseudos_ne_panic Γ ps s h
+      · cases h
+      · rename_i s' hs'
+        cases k <;> simp only [pseudoCheck] at hs' <;> split at hs' <;> cases hs'
+    · cases h
+    · rename_i s' hs'
+      exact bind_requireValue_ne_panic (fun s => check_ne_panic Γ e s) hs'
 end
 
 mutual
@@ -1078,6 +1630,64 @@ theorem subs_accepted (Γ : Ctx) : (e : TExpr) → (t : ETy) → check Γ e = .o
           · cases h
           · cases h
         · cases h
+  | .diffSwitch first rest, t, h => by
+    intro e' he'
+    simp only [subsE, List.mem_cons, List.mem_append] at he'
+    rcases he' with rfl | he' | he'
+    · exact ⟨t, h⟩
+    all_goals
+      simp only [check] at h
+      split at h
+      · rename_i tf hf
+        rw [checkValue_ok] at hf
+        split at h
+        · rename_i hc
+          first
+            | exact subs_accepted Γ first _ hf e' he'
+            | exact cases_subs_accepted Γ _ rest hc e' he'
+        · cases h
+        · cases h
+      · cases h
+      · cases h
+  | .xcrement pre inc v, t, h => by
+    simp only [subsE, List.mem_singleton]; rintro e' rfl; exact ⟨t, h⟩
+  | .enumConst en n, t, h => by
+    simp only [subsE, List.mem_singleton]; rintro e' rfl; exact ⟨t, h⟩
+  | .labelProp l, t, h => by
+    simp only [subsE, List.mem_singleton]; rintro e' rfl; exact ⟨t, h⟩
+  | .callx user f pseudos args, t, h => by
+    intro e' he'
+    simp only [subsE, List.mem_cons, List.mem_append] at he'
+    rcases he' with rfl | he' | he'
+    · exact ⟨t, h⟩
+    · simp only [check] at h
+      split at h
+      · rename_i hp
+        exact pseudos_subs_accepted Γ pseudos hp e' he'
+      · cases h
+      · cases h
+    · simp only [check] at h
+      split at h
+      · split at h
+        · cases h
+        · split at h
+          · split at h
+            · rename_i hn
+              cases args with
+              | nil => simp [subsA] at he'
+              | cons _ _ => simp [TArgs.isNil] at hn
+            · cases h
+          · split at h
+            · cases h
+            · split at h
+              · split at h
+                · rename_i hargs
+                  exact args_subs_accepted Γ args _ hargs e' he'
+                · cases h
+                · cases h
+              · cases h
+      · cases h
+      · cases h
 theorem args_subs_accepted (Γ : Ctx) : (as : TArgs) → (ps : List Param) →
     checkArgs Γ as ps = .ok () → ∀ e' ∈ subsA as, ∃ t', check Γ e' = .ok t'
   | .nil, ps, h => by simp [subsA]
@@ -1107,7 +1717,133 @@ theorem args_subs_accepted (Γ : Ctx) : (as : TArgs) → (ps : List Param) →
       · cases h
     · cases h
     · cases h
+theorem cases_subs_accepted (Γ : Ctx) (t : Ty) : (cs : TCases) →
+    checkCases Γ t cs = .ok () → ∀ e' ∈ subsC cs, ∃ t', check Γ e' = .ok t'
+  | .nil, h => by simp [subsC]
+  | .blank cs, h => by
+    simp only [checkCases] at h
+    simp only [subsC]; exact cases_subs_accepted Γ t cs h
+  | .case e cs, h => by
+    intro e' he'
+    simp only [subsC, List.mem_append] at he'
+    simp only [checkCases] at h
+    split at h
+    · rename_i te he
+      rw [checkValue_ok] at he
+      split at h
+      · rcases he' with he' | he'
+        · exact subs_accepted Γ e _ he e' he'
+        · exact cases_subs_accepted Γ t cs h e' he'
+      · cases h
+      · cases h
+    · cases h
+    · cases h
+theorem pseudos_subs_accepted (Γ : Ctx) : (ps : TPseudos) →
+    checkPseudos Γ ps = .ok () → ∀ e' ∈ subsP ps, ∃ t', check Γ e' = .ok t'
+  | .nil, h => by simp [subsP]
+  | .cons k e ps, h => by
+    intro e' he'
+    simp only [subsP, List.mem_append] at he'
+    simp only [checkPseudos] at h
+    split at h
+    · rename_i te he
+      rw [checkValue_ok] at he
+      split at h
+      · rcases he' with he' | he'
+        · exact subs_accepted Γ e _ he e' he'
+        · exact pseudos_subs_accepted Γ ps h e' he'
+      · cases h
+      · cases h
+    · cases h
+    · cases h
 end
 
+mutual
+/-- subexpressions of subexpressions are subexpressions -/
+theorem subsE_trans : (e : TExpr) → ∀ e' ∈ subsE e, ∀ y ∈ subsE e', y ∈ subsE e
+  | .litI _ | .litF _ | .litS _ | .reg _ _ | .var _ _ | .xcrement _ _ _ | .enumConst _ _
+  | .labelProp _ => by
+    intro e' he' y hy
+    simp only [subsE, List.mem_singleton] at he'
+    subst he'; exact hy
+  | .unop op x => by
+    intro e' he' y hy
+    simp only [subsE, List.mem_cons] at he'
+    rcases he' with rfl | he'
+    · exact hy
+    · simp only [subsE, List.mem_cons]; exact Or.inr (subsE_trans x e' he' y hy)
+  | .binop op a b => by
+    intro e' he' y hy
+    simp only [subsE, List.mem_cons, List.mem_append] at he'
+    rcases he' with rfl | he' | he'
+    · exact hy
+    · simp only [subsE, List.mem_cons, List.mem_append]
+      exact Or.inr (Or.inl (subsE_trans a e' he' y hy))
+    · simp only [subsE, List.mem_cons, List.mem_append]
+      exact Or.inr (Or.inr (subsE_trans b e' he' y hy))
+  | .ternary c l r => by
+    intro e' he' y hy
+    simp only [subsE, List.mem_cons, List.mem_append] at he'
+    rcases he' with rfl | (he' | he') | he'
+    · exact hy
+    · simp only [subsE, List.mem_cons, List.mem_append]
+      exact Or.inr (Or.inl (Or.inl (subsE_trans c e' he' y hy)))
+    · simp only [subsE, List.mem_cons, List.mem_append]
+      exact Or.inr (Or.inl (Or.inr (subsE_trans l e' he' y hy)))
+    · simp only [subsE, List.mem_cons, List.mem_append]
+      exact Or.inr (Or.inr (subsE_trans r e' he' y hy))
+  | .call f args => by
+    intro e' he' y hy
+    simp only [subsE, List.mem_cons] at he'
+    rcases he' with rfl | he'
+    · exact hy
+    · simp only [subsE, List.mem_cons]; exact Or.inr (subsA_trans args e' he' y hy)
+  | .diffSwitch first rest => by
+    intro e' he' y hy
+    simp only [subsE, List.mem_cons, List.mem_append] at he'
+    rcases he' with rfl | he' | he'
+    · exact hy
+    · simp only [subsE, List.mem_cons, List.mem_append]
+      exact Or.inr (Or.inl (subsE_trans first e' he' y hy))
+    · simp only [subsE, List.mem_cons, List.mem_append]
+      exact Or.inr (Or.inr (subsC_trans rest e' he' y hy))
+  | .callx u f ps args => by
+    intro e' he' y hy
+    simp only [subsE, List.mem_cons, List.mem_append] at he'
+    rcases he' with rfl | he' | he'
+    · exact hy
+    · simp only [subsE, List.mem_cons, List.mem_append]
+      exact Or.inr (Or.inl (subsP_trans ps e' he' y hy))
+    · simp only [subsE, List.mem_cons, List.mem_append]
+      exact Or.inr (Or.inr (subsA_trans args e' he' y hy))
+theorem subsA_trans : (as : TArgs) → ∀ e' ∈ subsA as, ∀ y ∈ subsE e', y ∈ subsA as
+  | .nil => by simp [subsA]
+  | .cons a as => by
+    intro e' he' y hy
+    simp only [subsA, List.mem_append] at he' ⊢
+    rcases he' with he' | he'
+    · exact Or.inl (subsE_trans a e' he' y hy)
+    · exact Or.inr (subsA_trans as e' he' y hy)
+theorem subsC_trans : (cs : TCases) → ∀ e' ∈ subsC cs, ∀ y ∈ subsE e', y ∈ subsC cs
+  | .nil => by simp [subsC]
+  | .blank cs => by simp only [subsC]; exact subsC_trans cs
+  | .case e cs => by
+    intro e' he' y hy
+    simp only [subsC, List.mem_append] at he' ⊢
+    rcases he' with he' | he'
+    · exact Or.inl (subsE_trans e e' he' y hy)
+    · exact Or.inr (subsC_trans cs e' he' y hy)
+theorem subsP_trans : (ps : TPseudos) → ∀ e' ∈ subsP ps, ∀ y ∈ subsE e', y ∈ subsP ps
+  | .nil => by simp [subsP]
+  | .cons k e ps => by
+    intro e' he' y hy
+    simp only [subsP, List.mem_append] at he' ⊢
+    rcases he' with he' | he'
+    · exact Or.inl (subsE_trans e e' he' y hy)
+    · exact Or.inr (subsP_trans ps e' he' y hy)
+end
+
+theorem EnumOk.of_mem {Γ : Ctx} {e e' : TExpr} (h : EnumOk Γ e) (he' : e' ∈ subsE e) : EnumOk Γ e' :=
+  h.sub (fun y hy => subsE_trans e e' he' y hy)
 
 end TruthModel.C09
